@@ -60,6 +60,14 @@ func (e *Exec) lazyObject(name string, typ types.Type) *Object {
 	return o
 }
 
+// heapRegion is the pre-state heap of struct type t: the fields of every t
+// reached through a pointer stored in a slice element, indexed by address.
+func (e *Exec) heapRegion(t types.Type) *Region {
+	r := e.lazyRegion("heap:"+t.String(), t)
+	e.allRegs[r.Name] = r
+	return r
+}
+
 func (e *Exec) lazyRegion(name string, elem types.Type) *Region {
 	if r, ok := e.lazyRegs[name]; ok {
 		return r
@@ -435,6 +443,12 @@ func (e *Exec) readElem(st *State, r *Region, idx T, path []int, typ types.Type)
 		if o, ok := e.addrObjs[addr.S]; ok {
 			return VPtr{Nil: nilc, Loc: &Loc{Obj: o}, Elem: u.Elem()}
 		}
+		// The pointee lives in the heap of its type: a region indexed by the
+		// address, so that two syntactically different index terms that denote
+		// the same element reach the same fields, also under a quantifier.
+		if _, isStruct := u.Elem().Underlying().(*types.Struct); isStruct && !isOpaqueStructType(u.Elem()) {
+			return VPtr{Nil: nilc, Loc: &Loc{Reg: e.heapRegion(u.Elem()), Idx: addr}, Elem: u.Elem()}
+		}
 		name := fmt.Sprintf("%s[%s]", r.Name, idx.S)
 		if k != "_" {
 			name += "." + k
@@ -531,7 +545,9 @@ func (e *Exec) writeElem(st *State, r *Region, idx T, path []int, v Value) {
 			k = "_"
 		}
 		e.setRegArr(st, r, k+".nil", Store(e.regArr(st, r, k+".nil", BoolSort), idx, x.Nil))
-		if x.Loc != nil && x.Loc.Obj != nil && len(x.Loc.Path) == 0 {
+		if x.Loc != nil && x.Loc.Reg != nil && strings.HasPrefix(x.Loc.Reg.Name, "heap:") && len(x.Loc.Path) == 0 {
+			e.setRegArr(st, r, k+".addr", Store(e.regArr(st, r, k+".addr", BV64), idx, x.Loc.Idx))
+		} else if x.Loc != nil && x.Loc.Obj != nil && len(x.Loc.Path) == 0 {
 			addr, ok := e.objAddr[x.Loc.Obj]
 			if !ok {
 				addr = e.fresh("addr", BV64)
